@@ -199,4 +199,13 @@ theorem source_simulates_model_steps {σ : Type} (ops : ShardsOps σ) (stale : S
    fun k r sb ob rb wc hsb h1 h2 => srcD_reset_simulates ops stale st w k r sb ob rb wc hsb h1 h2 (by rw [hb.2.2.2.2.2.2.2]),
    srcD_reset_received_simulates ops st w hb⟩
 
+open RS.RustW RS.SrcW in
+/-- … and it STARTS in the relation: the fresh work objects of today's source (`DecoderWork::new()`, `EncoderWork::new()`,
+    `Default::default()` = `new()`, translated on every run — all counters zero, an empty bitmap, the empty memory) hold the
+    bookkeeping of the model's fresh work objects, so `source_simulates_model(_steps)` apply from the first call on. -/
+theorem source_simulation_starts {σ : Type} (e : σ) :
+    DecBook (DecoderWork_new e) ({} : DecWork) ∧ EncBook (EncoderWork_new e) ({} : EncWork) ∧
+    DecoderWork_default_is_new = true ∧ EncoderWork_default_is_new = true :=
+  src_new_book e
+
 end RS
